@@ -88,6 +88,11 @@ CLAIMS = {
             'and read through a 7-character buffer; verdict and acknowledgement text must equal those of the ~ * : encoding. Arbitrary symbolic delimiters for the text layer are C01\'s.',
             'Trusted: CrossHair, z3. Documents and tables concrete, choices symbolic (choice enumeration under the tracer). One listed known finding (composite value echo).',
             'DESIGN.md §5 C12'),
+    'C18': ('other', 'inductive state-preservation argument checked by bounded symbolic execution (CrossHair+z3) of the pipeline / context reader + two-job histories + hash-seed side condition',
+            'G = all container-valued module globals, class attributes and function defaults of pyx12.*: every processing step of a catalogue (symbolic choices) leaves G unchanged, so no history '
+            'can influence a later step through G; two-job histories with fresh or reused parameter objects must reproduce the first-job result; fresh interpreters under six hash seeds must agree.',
+            'Trusted: CrossHair, z3, completeness of G (the history obligations catch state G does not know). Choice enumeration under the tracer; the hash-seed obligation is a concrete side condition, not a solver verdict.',
+            'DESIGN.md §5 C18'),
 }
 
 NOT_YET = 'check not built yet in this round (planned: see DESIGN.md §5)'
